@@ -66,7 +66,7 @@ fn leaf_future(ctx: &Ctx, env: &mut Env, leaf: &Leaf) -> BoxFuture<'static, u32>
             futures::future::poll_fn(move |cx| st.lock().unwrap().poll_next_unpin(cx).map(|o| o.unwrap_or(0))).boxed()
         }
         Leaf::Joinh { .. } => panic!("join handles do not exist in the capability API"),
-        Leaf::Recv { .. } => panic!("channels are not part of the legacy family"),
+        Leaf::Recv { .. } | Leaf::Grecv { .. } => panic!("channels are not part of the legacy family"),
     }
 }
 
@@ -159,7 +159,7 @@ fn run_script(ctx: Ctx, code: Arc<Vec<Instr>>, mut env: Env) -> BoxFuture<'stati
                     env.regs[*dst as usize] = item.flatten().unwrap_or(0);
                     pc += 1;
                 }
-                Instr::Chan { .. } | Instr::Send { .. } | Instr::Closec { .. } | Instr::Recv { .. } | Instr::Tryrecv { .. } => {
+                Instr::Chan { .. } | Instr::Send { .. } | Instr::Closec { .. } | Instr::Recv { .. } | Instr::Tryrecv { .. } | Instr::Gsend { .. } | Instr::Grecv { .. } => {
                     panic!("channels are not part of the legacy family")
                 }
             }
